@@ -860,6 +860,10 @@ class ExcelCompiler:
             self._gen_graph(address)
             cell_range = self.cell_map[address]
 
+        if not cell_range.address.is_range:
+            # two ranges which intersect in one cell (which can be empty)
+            return self._evaluate(address)
+
         if cell_range.needs_calc or (
                 self.cycles and not iterative_eval_tracker.is_calced(cell_range)):
             self.log.debug(f"Evaluating: {cell_range.address}, {cell_range.python_code}")
